@@ -114,6 +114,40 @@ func closeRing(r []exact.P) []exact.P {
 	return out
 }
 
+// scribble overwrites a coordinate buffer that has been handed to a constructor, the way a caller recycling its buffer
+// would: the constructors take their own copy of the positions, so nothing the library answers afterwards may depend on
+// the buffer (added after seeded change C03-o, where makeSeries kept the caller's backing array).
+func scribble(ps []geometry.Point) {
+	for i := range ps {
+		ps[i] = geometry.Point{X: 12345.5 - float64(i), Y: -54321.25 + float64(i%3)}
+	}
+}
+
+// newLineOwn / newPolyOwn build from private copies of the positions and scribble over those copies afterwards.
+func newLineOwn(ps []geometry.Point, opts *geometry.IndexOptions) *geometry.Line {
+	buf := append([]geometry.Point(nil), ps...)
+	l := geometry.NewLine(buf, opts)
+	scribble(buf)
+	return l
+}
+
+func newPolyOwn(ext []geometry.Point, holes [][]geometry.Point, opts *geometry.IndexOptions) *geometry.Poly {
+	var e []geometry.Point
+	if ext != nil {
+		e = append([]geometry.Point{}, ext...)
+	}
+	var hs [][]geometry.Point
+	for _, h := range holes {
+		hs = append(hs, append([]geometry.Point{}, h...))
+	}
+	p := geometry.NewPoly(e, hs, opts)
+	scribble(e)
+	for _, h := range hs {
+		scribble(h)
+	}
+	return p
+}
+
 // mkPoly builds a library polygon from exact rings; closed selects whether
 // the closing vertex is repeated.
 func mkPoly(ext exact.Ring, holes []exact.Ring, closed bool, ic IdxCfg) *geometry.Poly {
@@ -129,10 +163,10 @@ func mkPoly(ext exact.Ring, holes []exact.Ring, closed bool, ic IdxCfg) *geometr
 		}
 		hs = append(hs, gpts(hp))
 	}
-	return geometry.NewPoly(gpts(e), hs, ic.Opts())
+	return newPolyOwn(gpts(e), hs, ic.Opts())
 }
 
-func mkLine(ps []exact.P, ic IdxCfg) *geometry.Line { return geometry.NewLine(gpts(ps), ic.Opts()) }
+func mkLine(ps []exact.P, ic IdxCfg) *geometry.Line { return newLineOwn(gpts(ps), ic.Opts()) }
 
 func mkRect(mn, mx exact.P) geometry.Rect { return geometry.Rect{Min: gpt(mn), Max: gpt(mx)} }
 
